@@ -171,6 +171,8 @@ pub fn seed(name: &str) -> World {
             let fe = s.create_sub_element(ElementName::FibexElements).unwrap();
             mk_ref(&fe, Some(&c), None, EnumItem::CanCluster);
             b.create_sub_element(ElementName::Elements).unwrap();
+            // a named element below a parent that cannot be split over files: a file with another TIMING-RESOURCE here is rejected in the merge
+            els.create_named_sub_element(ElementName::SystemTiming, "t").unwrap().create_named_sub_element(ElementName::TimingResource, "r1").unwrap();
         }
         "mixedver" => {
             // two loaded files of different versions that share a package; the newer one holds an element kind that the
@@ -335,6 +337,7 @@ pub fn load_docs() -> Vec<(&'static str, String)> {
         ("other-version", format!("{}<AR-PACKAGES>{}</AR-PACKAGES></AUTOSAR>", h(V49), pk("z6", "<ELEMENTS/>"))),
         ("elements-only-in-new-file", format!("{}<AR-PACKAGES>{}{}</AR-PACKAGES></AUTOSAR>", h(V50), pk("a10", "<ELEMENTS><CAN-CLUSTER><SHORT-NAME>k</SHORT-NAME></CAN-CLUSTER></ELEMENTS>"), pk("a1", "<ELEMENTS><CAN-CLUSTER><SHORT-NAME>k</SHORT-NAME></CAN-CLUSTER></ELEMENTS><AR-PACKAGES/>"))),
         ("same-reference-texts", format!("{}<AR-PACKAGES>{}</AR-PACKAGES></AUTOSAR>", h(V50), pk("z4", "<ELEMENTS><SYSTEM><SHORT-NAME>q</SHORT-NAME><FIBEX-ELEMENTS><FIBEX-ELEMENT-REF-CONDITIONAL><FIBEX-ELEMENT-REF DEST=\"CAN-CLUSTER\">/a/c</FIBEX-ELEMENT-REF></FIBEX-ELEMENT-REF-CONDITIONAL><FIBEX-ELEMENT-REF-CONDITIONAL><FIBEX-ELEMENT-REF DEST=\"CAN-CLUSTER\">/a/a1/c</FIBEX-ELEMENT-REF></FIBEX-ELEMENT-REF-CONDITIONAL><FIBEX-ELEMENT-REF-CONDITIONAL><FIBEX-ELEMENT-REF DEST=\"CAN-CLUSTER\">/a/a1</FIBEX-ELEMENT-REF></FIBEX-ELEMENT-REF-CONDITIONAL></FIBEX-ELEMENTS></SYSTEM></ELEMENTS>"))),
+        ("merge-failure-after-import", format!("{}<AR-PACKAGES>{}{}</AR-PACKAGES></AUTOSAR>", h(V50), pk("a", "<ELEMENTS><CAN-CLUSTER><SHORT-NAME>b0</SHORT-NAME></CAN-CLUSTER><SYSTEM-TIMING><SHORT-NAME>t</SHORT-NAME><TIMING-RESOURCE><SHORT-NAME>r2</SHORT-NAME></TIMING-RESOURCE></SYSTEM-TIMING></ELEMENTS>"), pk("z3", "<ELEMENTS><SYSTEM><SHORT-NAME>late</SHORT-NAME></SYSTEM></ELEMENTS>"))),
         ("late-failure", format!("{}<AR-PACKAGES>{}{}</AR-PACKAGES></AUTOSAR>", h(V50), pk("z5", "<ELEMENTS><SYSTEM><SHORT-NAME>ok</SHORT-NAME></SYSTEM></ELEMENTS>"), pk("a", "<ELEMENTS><SYSTEM><SHORT-NAME>c</SHORT-NAME></SYSTEM></ELEMENTS>"))),
     ]
 }
@@ -909,7 +912,14 @@ pub fn transition_oracles(w: &World, pre: &PreState, op: &Op, out: &Outcome) -> 
                 changed.push("other-model");
             }
             if !changed.is_empty() {
-                f.push(fd("C11", format!("{kind}|{class}|changed:{}", changed.join("+")), String::new()));
+                // the lines that differ (first 12), for the witness
+                let whole_before = format!("{}\n{}", pre.canon.whole(), pre.canon_other.whole());
+                let whole_after = format!("{}\n{}", after.whole(), after_other.whole());
+                let (b, a): (Vec<&str>, Vec<&str>) = (whole_before.lines().collect(), whole_after.lines().collect());
+                let mut d: Vec<String> = b.iter().filter(|l| !a.contains(l)).map(|l| format!("- {l}")).collect();
+                d.extend(a.iter().filter(|l| !b.contains(l)).map(|l| format!("+ {l}")));
+                d.truncate(12);
+                f.push(fd("C11", format!("{kind}|{class}|changed:{}", changed.join("+")), d.join(" | ")));
             }
         }
     }
